@@ -69,6 +69,7 @@ const c_i8 int8 = 100
 const c_u8 uint8 = 200
 const c_int int = 7
 const c_my MyInt = 3
+type AMy = MyInt
 `
 
 var opsTypeNames = map[string]string{
@@ -189,13 +190,14 @@ func (r *opsRef) eval(text string) opsOutcome {
 	if err != nil {
 		return opsOutcome{Kind: "reject", Msg: err.Error()}
 	}
-	o := opsOutcome{Kind: "ok", Type: strings.TrimPrefix(tv.Type.String(), "p."), Const: constString(tv.Value)}
+	o := opsOutcome{Kind: "ok", Type: strings.ReplaceAll(strings.TrimPrefix(tv.Type.String(), "p."), "AMy", "MyInt"), Const: constString(tv.Value)}
 	return o
 }
 
 // ---- G: the real builder -----------------------------------------------------------------------------------
 
 type opsBuilder struct {
+	amy  types.Type
 	pkg  *gogen.Package
 	cb   *gogen.CodeBuilder
 	errs []string
@@ -221,6 +223,7 @@ func newOpsBuilder() *opsBuilder {
 	}{{"c_i8", types.Typ[types.Int8], 100}, {"c_u8", types.Typ[types.Uint8], 200}, {"c_int", types.Typ[types.Int], 7}, {"c_my", my, 3}} {
 		pkg.NewConstStart(pkg.Types.Scope(), token.NoPos, c.t, c.n).Val(c.v).EndInit(1)
 	}
+	b.amy = pkg.AliasType("AMy", my)
 	b.cb = pkg.NewFunc(nil, "host", nil, nil, false).BodyStart(pkg)
 	return b
 }
@@ -250,6 +253,8 @@ func (b *opsBuilder) push(src string) {
 		cb.Val(true)
 	case "nil":
 		cb.Val(nil)
+	case "AMy(7)":
+		cb.Typ(b.amy).Val(7).Call(1)
 	default:
 		cb.Val(b.pkg.Types.Scope().Lookup(src))
 	}
@@ -303,7 +308,7 @@ func (b *opsBuilder) build(p opsPoint) (o opsOutcome) {
 		return opsOutcome{Kind: "reject", Msg: b.errs[0]}
 	}
 	e := cb.Get(-1)
-	o = opsOutcome{Kind: "ok", Type: e.Type.String(), Const: constString(e.CVal)}
+	o = opsOutcome{Kind: "ok", Type: strings.ReplaceAll(e.Type.String(), "AMy", "MyInt"), Const: constString(e.CVal)}
 	var buf bytes.Buffer
 	if x, ok := e.Val.(ast.Expr); ok {
 		format.Node(&buf, token.NewFileSet(), x)
@@ -339,7 +344,7 @@ func opsOperandClass(src string) string {
 		return "tconst:uint8"
 	case src == "c_int":
 		return "tconst:int"
-	case src == "c_my":
+	case src == "c_my", src == "AMy(7)":
 		return "tconst:MyInt"
 	case src == "0" || src == "1" || src == "(-1)" || src == "300":
 		if src == "0" {
